@@ -5,6 +5,7 @@
   every scanner id and every identifier.
 -/
 import YaraModel.Lemmas.ExternalsRefine
+import YaraModel.Spec.ExtCli
 namespace YaraModel.Ext
 
 /-- The forward run used by the driver is the history semantics. -/
@@ -110,3 +111,59 @@ example :
     specR past "x" = some (.int, .int 2) ∧ specC past "x" = some (.int, .int 4) := by decide
 
 end YaraModel.Ext
+
+/-! ### command-line typing of `-d name=value` (cli/common.c), specification `Spec/ExtCli.lean` -/
+namespace YaraModel.ExtCli
+
+/-- a run of digits is an integer with its decimal value (any length: no 32-bit truncation) -/
+theorem classify_digits (ds : List Char) (hne : ds ≠ []) (hd : ds.all isDigit = true) (h0 : ds.head? ≠ some '-') :
+    classify ds = .int (digitsVal ds) := by
+  have hsm : stripMinus ds = (false, ds) := by
+    cases ds with
+    | nil => rfl
+    | cons c t =>
+      by_cases hc : c = '-'
+      · subst hc; simp at h0
+      · simp [stripMinus, hc]
+  have hnf : isFloat ds = false := by
+    simp only [isFloat, hsm]
+    have : (ds.filter (· == '.')).length = 0 := by
+      rw [List.length_eq_zero_iff, List.filter_eq_nil_iff]
+      intro c hc
+      have := (List.all_eq_true.mp hd) c hc
+      simp only [isDigit, Bool.and_eq_true, decide_eq_true_eq] at this
+      intro h; simp at h; subst h; revert this; decide
+    simp [this]
+  have hi : isInteger ds = true := by
+    simp only [isInteger, hsm]
+    simp [hne, hd]
+  simp [classify, hnf, hi, hsm]
+
+/-- a value with two or more dots is never a float -/
+theorem two_dots_not_float (v : List Char) (h : ((stripMinus v).2.filter (· == '.')).length ≥ 2) : isFloat v = false := by
+  simp only [isFloat]
+  have : ((stripMinus v).2.filter (· == '.')).length ≠ 1 := by omega
+  simp [this]
+
+/-- a value containing a character other than digits, '.', and a leading '-' is a string unless it is `true`/`false` -/
+theorem classify_other (v : List Char) (c : Char) (hc : c ∈ (stripMinus v).2) (hnd : isDigit c = false) (hdot : c ≠ '.')
+    (ht : v ≠ "true".toList) (hf : v ≠ "false".toList) : classify v = .str v := by
+  have h1 : isFloat v = false := by
+    simp only [isFloat]
+    have : (stripMinus v).2.all (fun c => isDigit c || c == '.') = false := by
+      rw [List.all_eq_false]
+      exact ⟨c, hc, by simp [hnd, hdot]⟩
+    simp [this]
+  have h2 : isInteger v = false := by
+    simp only [isInteger]
+    have : (stripMinus v).2.all isDigit = false := by
+      rw [List.all_eq_false]; exact ⟨c, hc, by simp [hnd]⟩
+    simp [this]
+  have ht' : ¬ v = ['t', 'r', 'u', 'e'] := ht
+  have hf' : ¬ v = ['f', 'a', 'l', 's', 'e'] := hf
+  simp [classify, h1, h2, ht', hf']
+
+example : classify "5000000000".toList = .int 5000000000 ∧ classify "1.2.3".toList = .str "1.2.3".toList ∧
+    classify "-2.5".toList = .flt true 25 1 ∧ classify "true".toList = .bool true := by decide
+
+end YaraModel.ExtCli
